@@ -1,6 +1,6 @@
 (** Properties/C02.v — "The newest cross-reference entry for an object always wins".
     Only statements, each closed by [exact] of a lemma proved in XRef/. *)
-From PdfV Require Import Base.Prelude Gen.Generated XRef.Model XRef.Spec XRef.MergeProofs XRef.StreamProofs XRef.FrontProofs.
+From PdfV Require Import Base.Prelude Gen.Generated XRef.Model XRef.Spec XRef.MergeProofs XRef.StreamProofs XRef.FrontProofs XRef.TableProofs XRef.At XRef.AtProofs XRef.AtExample XRef.TotalProofs Syn.Prim Syn.Parser Syn.Spells Syn.RenderProofs.
 Set Warnings "-notation-overridden".   (* also ends the import list for the dependency scanner of tools/vplib *)
 
 (** For every well-formed history, every subsection split of every update and every /Size (growing or not):
@@ -35,6 +35,113 @@ Theorem C02_walk_latest : forall xref_at file_len start (h : history) secss q0 s
             table_get t n = Ok (xent_opt (latest h n)).
 Proof. exact walk_latest. Qed.
 Print Assumptions C02_walk_latest.
+
+(** Classic tables (§7.5.4): reading at the `xref` keyword (read_xref_and_trailer_at, classic branch, up to and
+    including the `trailer` keyword) inverts the printer: every row is 20 bytes in any of the three 2-byte
+    end-of-line forms (chosen per row), any subsection split (including empty subsections and no subsection),
+    any non-empty ISO white-space after `xref`, between the two header numbers and after them, any white-space
+    before a header and before `trailer`.  [rest] is what follows the keyword (the trailer dictionary): its
+    first byte must not continue the keyword
+    (white-space or a delimiter such as `<`).  The lexer ends exactly behind the keyword. *)
+Theorem C02_table_roundtrip : forall (L : layout) (secs : list section) (rest : bytes) (p : N),
+  layout_ok L secs -> token_end rest ->
+  read_xref_table_at (mkLx p (print_table_spec L secs ++ rest))
+  = Ok (secs, mkLx (p + lenN (print_table_spec L secs)) rest).
+Proof. exact table_roundtrip. Qed.
+Print Assumptions C02_table_roundtrip.
+
+(** every printed row has exactly 20 bytes *)
+Theorem C02_table_row_20 : forall e el, row_fits e -> lenN (print_row e el) = 20.
+Proof. exact print_row_len. Qed.
+Print Assumptions C02_table_row_20.
+
+(** For ALL inputs (well-formed or not) the classic-table reader and locate_xref_offset end in a value or an error
+    value: there is no panic site, and the fuel of the model's loops always suffices because every lexeme consumes
+    input (next_word_total) — so "OutOfFuel" is not an outcome of these models. *)
+Theorem C02_table_total : forall s, no_panic (read_xref_table_at s).
+Proof. exact read_xref_table_at_total. Qed.
+Print Assumptions C02_table_total.
+
+Theorem C02_locate_xref_total : forall file, no_panic (locate_xref_offset file).
+Proof. exact locate_xref_offset_total. Qed.
+Print Assumptions C02_locate_xref_total.
+
+Theorem C02_lexer_progress : forall s,
+  match next_word s with
+  | Ok (_, _, s') => (length (lrest s') < length (lrest s))%nat
+  | Err _ => True
+  | _ => False
+  end.
+Proof. exact next_word_total. Qed.
+Print Assumptions C02_lexer_progress.
+
+(** One classic section as it stands in a file — the table in any layout of C02_table_roundtrip followed by the
+    trailer dictionary in ANY conforming spelling (Syn/Spells.v: the specification object of C03) and a tail the
+    parser cannot mistake for `stream` — is read back by read_xref_and_trailer_at: the sections, the dictionary,
+    and the lexer exactly behind the dictionary.  (Composition of the table reader with the shared parser model.) *)
+Theorem C02_section_roundtrip : forall (R : resolver) (L : layout) (secs : list section) (d : dict) its text tl p,
+  layout_ok L secs -> spells (PDict d) its -> vdepth (PDict d) <= MAX_DEPTH ->
+  renders its text tl -> tail_ok tl ->
+  exists p', p' + lenN tl = p + lenN (print_table_spec L secs) + lenN text /\
+    read_xref_and_trailer_at R (mkLx p (print_table_spec L secs ++ text)) = Ok (secs, d, mkLx p' tl).
+Proof. exact read_section_roundtrip. Qed.
+Print Assumptions C02_section_roundtrip.
+
+(** "read one section at a position" — the oracle [xref_at] of C02_walk_latest — for classic sections:
+    a premise about what the file CONTAINS at the position replaces the premise about what the oracle returns. *)
+Theorem C02_xref_at_section : forall (R : resolver) (tid : dict -> N) file pos secs d,
+  section_at file pos secs d -> xref_at_tables R tid file pos = Ok (secs, tinfo_of tid d).
+Proof. exact xref_at_section. Qed.
+Print Assumptions C02_xref_at_section.
+
+(** C02_walk_latest with the oracle discharged: a file that contains a /Prev chain of classic sections. *)
+Theorem C02_walk_latest_tables : forall (R : resolver) (tid : dict -> N) file start (h : history) secss q0 secs0 d0 older size fuel n,
+  Forall2 represents secss h -> wf_history h ->
+  map snd ((q0, secs0) :: older) = rev secss ->
+  section_at file (start + q0) secs0 d0 ->
+  t_size (tinfo_of tid d0) = Some size -> size <= xr_max_id ->
+  chain_at tid file start (t_prev (tinfo_of tid d0)) older -> NoDup (map fst older) ->
+  (forall q, In q (q0 :: map fst older) -> start + q < lenN file) -> lenN file < usize_max ->
+  (length older <= fuel)%nat -> n < size ->
+  exists t, read_xref_table_and_trailer (xref_at_tables R tid file) (lenN file) fuel start q0 = Ok (t, tid d0) /\
+            table_get t n = Ok (xent_opt (latest h n)).
+Proof. exact walk_latest_tables. Qed.
+Print Assumptions C02_walk_latest_tables.
+
+(** "read one object at a position" — the oracle [obj_at] of resolve_ref: `id gen obj value endobj` with the
+    value in any conforming spelling is read back as the value. *)
+Theorem C02_object_at : forall (R : resolver) allow file pos id gen v,
+  object_at file pos id gen v -> obj_at_parse R allow F_ANY file pos = Ok v.
+Proof. exact obj_at_object. Qed.
+Print Assumptions C02_object_at.
+
+(** locate_xref_offset reads the offset the file ends with (last occurrence of the keyword, the number after it) *)
+Theorem C02_locate_startxref : forall file q, startxref_at file q -> locate_xref_offset file = Ok q.
+Proof. exact locate_xref_startxref. Qed.
+Print Assumptions C02_locate_startxref.
+
+(** C02_resolve_latest (DESIGN §9 C02) for classic-table files: open (header at 0, startxref, /Prev walk) and
+    resolve.  For every well-formed history written as a chain of classic sections, every number below /Size
+    resolves to the object stored by the most recent update that mentions it, to FreeObject when that update
+    freed it, to NullRef when no update mentions it; the trailer is the newest one.  No parser oracle is left;
+    the remaining premises describe the file: header at 0; the file ends with `startxref`, the offset in decimal
+    and a tail without the letter `s` (startxref_at, e.g. "\n%%EOF\n"); what stands at the positions the sections
+    and the newest entries name. *)
+Theorem C02_resolve_latest : forall (R : resolver) (tid : dict -> N) allow (member : bytes -> prim -> N -> res prim)
+    file (h : history) secss q0 secs0 d0 older size,
+  Forall2 represents secss h -> wf_history h ->
+  map snd ((q0, secs0) :: older) = rev secss ->
+  starts_with xr_header file = true -> startxref_at file q0 ->
+  section_at file q0 secs0 d0 -> t_size (tinfo_of tid d0) = Some size -> size <= xr_max_id ->
+  chain_at tid file 0 (t_prev (tinfo_of tid d0)) older -> NoDup (map fst older) ->
+  lenN file < usize_max ->
+  (forall n g pos, latest h n = Some (Direct g pos) -> exists v, object_at file pos n g v) ->
+  (forall n s i, latest h n <> Some (Compressed s i)) ->
+  exists t, load (xref_at_tables R tid) file = Ok (0, t, tid d0) /\
+    forall n fuel, n < size ->
+      stored file 0 n (latest h n) (resolve_ref prim (obj_at_parse R allow F_ANY) member (S fuel) file 0 t n).
+Proof. exact resolve_latest_tables_file. Qed.
+Print Assumptions C02_resolve_latest.
 
 (** Cross-reference streams: the section reader inverts the §7.5.8 printer for every /W with fields of
     0..8 bytes (w0 = 0: default type 1), one subsection … *)
@@ -99,3 +206,44 @@ Example C02_stream_example :
   parse_xref_stream_sections [3; 2] [1; 2; 1] (print_stream 1 2 1 [{| first_id := 3; entries := [XRaw 300 0; XStream 9 4] |}]) false
   = Ok [{| first_id := 3; entries := [XRaw 300 0; XStream 9 4] |}].
 Proof. vm_compute. reflexivity. Qed.
+Definition ex_layout : layout :=
+  {| l_first := [13; 10];
+     l_subs := [ {| l_pre := []; l_mid := [32]; l_heol := [10]; l_eols := [SpLf; CrLf] |};
+                 {| l_pre := [32; 9]; l_mid := [32; 32]; l_heol := [13]; l_eols := [SpCr] |};
+                 {| l_pre := []; l_mid := [32]; l_heol := [13; 10]; l_eols := [] |} ];
+     l_end := [] |}.
+Definition ex_tab_secs : list section :=
+  [ {| first_id := 0; entries := [XFree 0 65535; XRaw 17 0] |};
+    {| first_id := 7; entries := [XRaw 9999999999 3] |};
+    {| first_id := 12; entries := [] |} ].
+Example C02_table_example :
+  read_xref_table_at (mkLx 100 (print_table_spec ex_layout ex_tab_secs ++ [10; 60; 60; 62; 62]))
+  = Ok (ex_tab_secs, mkLx (100 + lenN (print_table_spec ex_layout ex_tab_secs)) [10; 60; 60; 62; 62]) /\
+  lenN (print_table_spec ex_layout ex_tab_secs) = 90.
+Proof. split; vm_compute; reflexivity. Qed.
+Example C02_table_example_ok : layout_ok ex_layout ex_tab_secs.
+Proof.
+  unfold layout_ok, ex_layout, ex_tab_secs, sub_ok, gap, iso_white, row_fits. cbn [l_first l_end l_subs l_pre l_mid l_heol l_eols entries first_id].
+  repeat match goal with
+         | |- _ /\ _ => split
+         | |- Forall2 _ _ _ => constructor
+         | |- Forall _ _ => constructor
+         | |- _ <> _ => discriminate
+         | |- In _ _ => cbn [In]; tauto
+         | |- _ < _ => reflexivity
+         | |- _ = _ => reflexivity
+         end.
+Qed.
+(** non-vacuity of C02_resolve_latest: every premise holds for a concrete file (derived THROUGH the theorem) … *)
+Example C02_resolve_latest_example :
+  exists t, load (xref_at_tables no_resolve (fun _ => 0)) ex1_file = Ok (0, t, 0) /\
+    forall n fuel, n < 2 ->
+      stored ex1_file 0 n (latest ex1_h n)
+        (resolve_ref prim (obj_at_parse no_resolve false F_ANY) (fun _ _ _ => Err E_OTHER) (S fuel) ex1_file 0 t n).
+Proof. exact resolve_latest_example. Qed.
+(** … and the functions compute exactly that on the file *)
+Example C02_resolve_latest_example_computed :
+  exists t, load (xref_at_tables no_resolve (fun _ => 0)) ex1_file = Ok (0, t, 0) /\
+    resolve_ref prim (obj_at_parse no_resolve false F_ANY) (fun _ _ _ => Err E_OTHER) 2 ex1_file 0 t 1 = Ok (PInt 5) /\
+    resolve_ref prim (obj_at_parse no_resolve false F_ANY) (fun _ _ _ => Err E_OTHER) 2 ex1_file 0 t 0 = Err E_FREE.
+Proof. exact resolve_latest_example_computed. Qed.
